@@ -64,6 +64,8 @@ func vfStartSession(r *vfRun, ops []vfOp) *vfSession {
 			os.WriteFile(s.root+"/"+f.p, vfFill(s.tag^vfHashStr(f.p), 0, f.n), 0o644)
 		}
 		os.Symlink("f0", s.root+"/l0")
+		os.Symlink("d", s.root+"/ld")
+		os.Symlink("nowhere", s.root+"/ldang")
 		s.srv = vfStartServer(sim, 0, alloc, nil, 0, s.root, sc.cfg("readonly", 0) != 0, "", maxTx)
 	} else {
 		s.fs = newSfs(sim)
@@ -84,6 +86,7 @@ func vfStartSession(r *vfRun, ops []vfOp) *vfSession {
 	s.wc.window = int(sc.cfg("window", 0))
 	s.wc.halfCls = sc.cfg("halfclose", 0) != 0
 	s.wc.dataTag = s.tag
+	s.wc.nextID = 10 + uint32(s.tag%5000) // request ids vary per run
 	s.srv.c2s.noFrag = sc.cfg("nofrag", 0) != 0
 	return s
 }
